@@ -141,3 +141,6 @@ func Shrink(tr *Trace, sig string, maxRuns int, deadline time.Time, keep func(*T
 	}
 	return cur
 }
+
+// CloneTrace returns a deep copy of a trace.
+func CloneTrace(tr *Trace) *Trace { return cloneTrace(tr) }
